@@ -5,12 +5,6 @@ use chrono::{DateTime, Duration};
 use rscel::verif_hooks::verif_funcs as vf;
 use rscel::CelValue;
 
-const NS: i128 = 1_000_000_000;
-
-fn dur_total(s: i64, n: u32) -> i128 {
-    (s as i128) * NS + n as i128
-}
-
 /// normalised (secs, nanos) of a total nanosecond count given as secs + carry parts
 fn norm(secs: i128, nanos: i64) -> (i128, u32) {
     // nanos in (-2e9, 2e9)
@@ -43,6 +37,14 @@ fn mk_ts(s: i128, n: u32) -> Option<DateTime<chrono::Utc>> {
     }
 }
 
+/// chrono's representable range for DateTime<Utc>, in epoch seconds (checked by harness
+/// `c16_range_constants`: from_timestamp(s, 0) is Some exactly inside these bounds)
+pub const MIN_TS: i128 = -8334601228800;
+pub const MAX_TS: i128 = 8210266876799;
+
+/// half-width of a timestamp window, in seconds (about +-36 hours)
+pub const WIN: i64 = 1 << 17;
+
 #[derive(Clone, Copy)]
 pub enum Shape {
     TplusD,
@@ -53,10 +55,15 @@ pub enum Shape {
     DminusD,
 }
 
-fn sym_ts(with_nanos: bool) -> (i64, u32) {
-    let s: i64 = any();
-    let n: u32 = if with_nanos { any() } else { 0 };
-    assume(n < 1_000_000_000);
+/// A timestamp in the window `base +- WIN` seconds with arbitrary nanoseconds. Full-range
+/// symbolic instants do not finish (seconds -> civil date -> seconds inside one query), so
+/// instants are explored window by window around base instants chosen at the interesting
+/// places of the calendar (DESIGN.md 3/C16 lists them).
+fn win_ts(base: i64) -> (i64, u32) {
+    let d: i64 = any();
+    let n: u32 = any();
+    assume(d > -WIN && d < WIN && n < 1_000_000_000);
+    let s = base + d;
     assume(DateTime::from_timestamp(s, n).is_some());
     (s, n)
 }
@@ -68,69 +75,113 @@ fn sym_dur() -> (i64, u32) {
     (s, n)
 }
 
-/// The six arithmetic shapes: never a panic; a result outside the representable range is an
-/// error; a representable result is the exact instant/duration.
-pub fn arith(shape: Shape, with_nanos: bool) {
-    match shape {
-        Shape::TplusD | Shape::DplusT | Shape::TminusD => {
-            let (ts, tn) = sym_ts(with_nanos);
-            let (ds, dn) = sym_dur();
-            let t = CelValue::TimeStamp(DateTime::from_timestamp(ts, tn).unwrap());
-            let d = CelValue::Duration(Duration::new(ds, dn).unwrap());
-            let (r, want) = match shape {
-                Shape::TplusD => (t + d, norm(ts as i128 + ds as i128, tn as i64 + dn as i64)),
-                Shape::DplusT => (d + t, norm(ts as i128 + ds as i128, tn as i64 + dn as i64)),
-                _ => (t - d, norm(ts as i128 - ds as i128, tn as i64 - dn as i64)),
-            };
-            let w = mk_ts(want.0, want.1);
-            witness!(w.is_none(), "result outside the representable range");
-            witness!(w.is_some(), "representable result");
-            match (&r, w) {
-                (CelValue::TimeStamp(g), Some(w)) => assert!(*g == w, "timestamp arithmetic is exact"),
-                (CelValue::Err(_), None) => {}
-                (_, None) => assert!(false, "a result outside the representable range must be an error"),
-                _ => assert!(false, "a representable result must be a timestamp"),
-            }
-            core::mem::forget(r);
-        }
-        Shape::TminusT => {
-            let (s1, n1) = sym_ts(with_nanos);
-            let (s2, n2) = sym_ts(with_nanos);
-            let a = CelValue::TimeStamp(DateTime::from_timestamp(s1, n1).unwrap());
-            let b = CelValue::TimeStamp(DateTime::from_timestamp(s2, n2).unwrap());
-            let r = a - b;
-            let want = norm(s1 as i128 - s2 as i128, n1 as i64 - n2 as i64);
-            let w = mk_dur(want.0, want.1);
-            witness!(w.is_some(), "representable result");
-            match (&r, w) {
-                (CelValue::Duration(g), Some(w)) => assert!(*g == w, "timestamp difference is exact"),
-                (CelValue::Err(_), None) => {}
-                (_, None) => assert!(false, "a difference outside the representable range must be an error"),
-                _ => assert!(false, "a representable difference must be a duration"),
-            }
-            core::mem::forget(r);
-        }
-        Shape::DplusD | Shape::DminusD => {
-            let (s1, n1) = sym_dur();
-            let (s2, n2) = sym_dur();
-            let a = CelValue::Duration(Duration::new(s1, n1).unwrap());
-            let b = CelValue::Duration(Duration::new(s2, n2).unwrap());
-            let (r, want) = match shape {
-                Shape::DplusD => (a + b, norm(s1 as i128 + s2 as i128, n1 as i64 + n2 as i64)),
-                _ => (a - b, norm(s1 as i128 - s2 as i128, n1 as i64 - n2 as i64)),
-            };
-            let w = mk_dur(want.0, want.1);
-            witness!(w.is_none(), "result outside the representable range");
-            witness!(w.is_some(), "representable result");
-            match (&r, w) {
-                (CelValue::Duration(g), Some(w)) => assert!(*g == w, "duration arithmetic is exact"),
-                (CelValue::Err(_), None) => {}
-                (_, None) => assert!(false, "a result outside the representable range must be an error"),
-                _ => assert!(false, "a representable result must be a duration"),
-            }
-            core::mem::forget(r);
-        }
+fn win_dur() -> (i64, u32) {
+    let s: i64 = any();
+    let n: u32 = any();
+    assume(s > -WIN && s < WIN && n < 1_000_000_000);
+    (s, n)
+}
+
+pub fn range_constants() {
+    let s: i64 = any();
+    let ok = DateTime::from_timestamp(s, 0).is_some();
+    witness!(ok, "representable");
+    witness!(!ok, "not representable");
+    assert!(ok == ((s as i128) >= MIN_TS && (s as i128) <= MAX_TS), "range constants match chrono");
+}
+
+fn in_range(secs: i128) -> bool {
+    secs >= MIN_TS && secs <= MAX_TS
+}
+
+/// t (window) +- d (ANY duration): a timestamp exactly when the exact result is inside the
+/// representable range, an error otherwise, never a panic. (The value is compared in
+/// `ts_arith_value`.)
+pub fn ts_arith_range(shape: Shape, base: i64) {
+    let (ts, tn) = win_ts(base);
+    let (ds, dn) = sym_dur();
+    let t = CelValue::TimeStamp(DateTime::from_timestamp(ts, tn).unwrap());
+    let d = CelValue::Duration(Duration::new(ds, dn).unwrap());
+    let (r, want) = match shape {
+        Shape::TplusD => (t + d, norm(ts as i128 + ds as i128, tn as i64 + dn as i64)),
+        Shape::DplusT => (d + t, norm(ts as i128 + ds as i128, tn as i64 + dn as i64)),
+        _ => (t - d, norm(ts as i128 - ds as i128, tn as i64 - dn as i64)),
+    };
+    let fits = in_range(want.0);
+    witness!(fits, "representable result");
+    witness!(!fits, "result outside the representable range");
+    match &r {
+        CelValue::TimeStamp(_) => assert!(fits, "a result outside the representable range must be an error"),
+        CelValue::Err(_) => assert!(!fits, "a representable result must not be rejected"),
+        _ => assert!(false, "timestamp +- duration is a timestamp or an error"),
     }
+    core::mem::forget(r);
+}
+
+/// t (window) +- d (|d| < WIN): exact instant
+pub fn ts_arith_value(shape: Shape, base: i64) {
+    let (ts, tn) = win_ts(base);
+    let (ds, dn) = win_dur();
+    let t = CelValue::TimeStamp(DateTime::from_timestamp(ts, tn).unwrap());
+    let d = CelValue::Duration(Duration::new(ds, dn).unwrap());
+    let (r, want) = match shape {
+        Shape::TplusD => (t + d, norm(ts as i128 + ds as i128, tn as i64 + dn as i64)),
+        Shape::DplusT => (d + t, norm(ts as i128 + ds as i128, tn as i64 + dn as i64)),
+        _ => (t - d, norm(ts as i128 - ds as i128, tn as i64 - dn as i64)),
+    };
+    let fits = in_range(want.0);
+    witness!(fits && want.1 != tn, "representable result with a nanosecond carry or borrow");
+    match &r {
+        CelValue::TimeStamp(g) => {
+            assert!(fits, "a result outside the representable range must be an error");
+            assert!(g.timestamp() as i128 == want.0, "timestamp arithmetic is exact (seconds)");
+            assert!(g.timestamp_subsec_nanos() == want.1, "timestamp arithmetic is exact (nanoseconds)");
+        }
+        CelValue::Err(_) => assert!(!fits, "a representable result must not be rejected"),
+        _ => assert!(false, "timestamp +- duration is a timestamp or an error"),
+    }
+    core::mem::forget(r);
+}
+
+/// t1 (window 1) - t2 (window 2): the exact duration between them
+pub fn ts_diff(base1: i64, base2: i64) {
+    let (s1, n1) = win_ts(base1);
+    let (s2, n2) = win_ts(base2);
+    let a = CelValue::TimeStamp(DateTime::from_timestamp(s1, n1).unwrap());
+    let b = CelValue::TimeStamp(DateTime::from_timestamp(s2, n2).unwrap());
+    let r = a - b;
+    let want = norm(s1 as i128 - s2 as i128, n1 as i64 - n2 as i64);
+    let w = mk_dur(want.0, want.1);
+    witness!(n1 < n2, "nanosecond borrow");
+    match (&r, w) {
+        (CelValue::Duration(g), Some(w)) => assert!(*g == w, "timestamp difference is exact"),
+        (CelValue::Err(_), None) => {}
+        (_, None) => assert!(false, "a difference outside the representable range must be an error"),
+        _ => assert!(false, "a representable difference must be a duration"),
+    }
+    core::mem::forget(r);
+}
+
+/// d1 +- d2, all durations: exact or error
+pub fn dur_arith(shape: Shape) {
+    let (s1, n1) = sym_dur();
+    let (s2, n2) = sym_dur();
+    let a = CelValue::Duration(Duration::new(s1, n1).unwrap());
+    let b = CelValue::Duration(Duration::new(s2, n2).unwrap());
+    let (r, want) = match shape {
+        Shape::DplusD => (a + b, norm(s1 as i128 + s2 as i128, n1 as i64 + n2 as i64)),
+        _ => (a - b, norm(s1 as i128 - s2 as i128, n1 as i64 - n2 as i64)),
+    };
+    let w = mk_dur(want.0, want.1);
+    witness!(w.is_none(), "result outside the representable range");
+    witness!(w.is_some(), "representable result");
+    match (&r, w) {
+        (CelValue::Duration(g), Some(w)) => assert!(*g == w, "duration arithmetic is exact"),
+        (CelValue::Err(_), None) => {}
+        (_, None) => assert!(false, "a result outside the representable range must be an error"),
+        _ => assert!(false, "a representable result must be a duration"),
+    }
+    core::mem::forget(r);
 }
 
 /// d1 + d2 - d2 == d1 whenever the intermediate is representable
@@ -140,46 +191,61 @@ pub fn dur_roundtrip() {
     let d1 = Duration::new(s1, n1).unwrap();
     let d2 = Duration::new(s2, n2).unwrap();
     let sum = CelValue::Duration(d1) + CelValue::Duration(d2);
-    if sum.is_err() {
-        witness!(true, "intermediate not representable");
-        core::mem::forget(sum);
-        return;
-    }
-    let back = sum - CelValue::Duration(d2);
+    // rebuild the intermediate with a concrete kind (a "duration or error" value would drag
+    // every variant's clone/drop glue into the query)
+    let mid = match &sum {
+        CelValue::Duration(m) => *m,
+        _ => {
+            witness!(true, "intermediate not representable");
+            core::mem::forget(sum);
+            return;
+        }
+    };
+    core::mem::forget(sum);
+    let back = CelValue::Duration(mid) - CelValue::Duration(d2);
     witness!(true, "round trip");
     assert!(matches!(&back, CelValue::Duration(g) if *g == d1), "d1 + d2 - d2 == d1");
     core::mem::forget(back);
 }
 
-/// (t + d) - d == t and (t1 - t2) + t2 == t1 whenever the intermediates are representable
-pub fn ts_roundtrip(with_nanos: bool) {
-    let (ts, tn) = sym_ts(with_nanos);
-    let (ds, dn) = sym_dur();
+/// (t + d) - d == t, t in a window, |d| < WIN
+pub fn ts_roundtrip(base: i64) {
+    let (ts, tn) = win_ts(base);
+    let (ds, dn) = win_dur();
     let t = DateTime::from_timestamp(ts, tn).unwrap();
     let d = Duration::new(ds, dn).unwrap();
     let sum = CelValue::TimeStamp(t) + CelValue::Duration(d);
-    if sum.is_err() {
-        witness!(true, "intermediate not representable");
-        core::mem::forget(sum);
-        return;
-    }
-    let back = sum - CelValue::Duration(d);
+    let mid = match &sum {
+        CelValue::TimeStamp(m) => *m,
+        _ => {
+            witness!(true, "intermediate not representable");
+            core::mem::forget(sum);
+            return;
+        }
+    };
+    core::mem::forget(sum);
+    let back = CelValue::TimeStamp(mid) - CelValue::Duration(d);
     witness!(true, "round trip");
     assert!(matches!(&back, CelValue::TimeStamp(g) if *g == t), "(t + d) - d == t");
     core::mem::forget(back);
 }
 
-pub fn ts_diff_roundtrip(with_nanos: bool) {
-    let (s1, n1) = sym_ts(with_nanos);
-    let (s2, n2) = sym_ts(with_nanos);
+/// (t1 - t2) + t2 == t1, both in windows
+pub fn ts_diff_roundtrip(base1: i64, base2: i64) {
+    let (s1, n1) = win_ts(base1);
+    let (s2, n2) = win_ts(base2);
     let t1 = DateTime::from_timestamp(s1, n1).unwrap();
     let t2 = DateTime::from_timestamp(s2, n2).unwrap();
     let diff = CelValue::TimeStamp(t1) - CelValue::TimeStamp(t2);
-    if diff.is_err() {
-        core::mem::forget(diff);
-        return;
-    }
-    let back = diff + CelValue::TimeStamp(t2);
+    let d = match &diff {
+        CelValue::Duration(d) => *d,
+        _ => {
+            core::mem::forget(diff);
+            return;
+        }
+    };
+    core::mem::forget(diff);
+    let back = CelValue::Duration(d) + CelValue::TimeStamp(t2);
     witness!(true, "round trip");
     assert!(matches!(&back, CelValue::TimeStamp(g) if *g == t1), "(t1 - t2) + t2 == t1");
     core::mem::forget(back);
@@ -189,35 +255,43 @@ pub fn ts_diff_roundtrip(with_nanos: bool) {
 /// millisecond part, characterised by bracketing (no divider in the oracle)
 pub fn dur_accessors() {
     let (s, n) = sym_dur();
-    let total = dur_total(s, n); // nanoseconds, exact
     let d = Duration::new(s, n).unwrap();
-    let h = vf::get_hours(CelValue::Duration(d), vec![CelValue::Null]);
-    let m = vf::get_minutes(CelValue::Duration(d), vec![CelValue::Null]);
-    let sec = vf::get_seconds(CelValue::Duration(d), vec![CelValue::Null]);
-    let ms = vf::get_milliseconds(CelValue::Duration(d), vec![CelValue::Null]);
-    witness!(total < 0 && n != 0, "negative duration with a fraction");
-    witness!(total > 0, "positive duration");
-    let whole = |v: &CelValue, unit: i128, what: &'static str| match v {
+    // typed overloads (hook): the accessors' dispatcher takes two argument slots (receiver
+    // + optional zone), and a heap Vec of two CelValues does not finish
+    let h = CelValue::Int(vf::inner::get_hours::dur(d));
+    let m = CelValue::Int(vf::inner::get_minutes::dur(d));
+    let sec = CelValue::Int(vf::inner::get_seconds::dur(d));
+    let ms = CelValue::Int(vf::inner::get_milliseconds::dur(d));
+    // The duration is s seconds + n nanoseconds (0 <= n < 1e9, s may be negative).
+    // Whole seconds toward zero and the signed sub-second nanoseconds:
+    let negative = s < 0;
+    let (ws, sub) = if negative && n > 0 { (s + 1, n as i64 - 1_000_000_000) } else { (s, n as i64) };
+    witness!(negative && n != 0, "negative duration with a fraction");
+    witness!(s > 0, "positive duration");
+    let whole = |v: &CelValue, unit: i64, what: &'static str| match v {
         CelValue::Int(q) => {
-            let q = *q as i128;
-            // q = trunc(total / unit)  <=>  |total - q*unit| < unit and same sign (or zero)
-            let rem = total - q * unit;
-            if total >= 0 {
-                assert!(rem >= 0 && rem < unit, "{}", what);
+            // q = trunc(ws / unit)  <=>  ws - q*unit has ws's sign and magnitude below unit
+            // (|q| <= |ws| / unit, so q*unit cannot overflow when the answer is right; use
+            // i128 only for the product's headroom, the multiplier is a small constant)
+            let rem = ws as i128 - (*q as i128) * unit as i128;
+            if ws >= 0 {
+                assert!(rem >= 0 && rem < unit as i128, "{}", what);
             } else {
-                assert!(rem <= 0 && rem > -unit, "{}", what);
+                assert!(rem <= 0 && rem > -(unit as i128), "{}", what);
             }
         }
         _ => assert!(false, "duration accessor returns an int"),
     };
-    whole(&h, 3600 * NS, "getHours is the total whole hours");
-    whole(&m, 60 * NS, "getMinutes is the total whole minutes");
-    whole(&sec, NS, "getSeconds is the total whole seconds");
-    match (&ms, &sec) {
-        (CelValue::Int(ms), CelValue::Int(sec)) => {
-            // sub-second part: total - sec*1e9 nanoseconds, in whole milliseconds toward zero
-            let sub = total - (*sec as i128) * NS;
-            let rem = sub - (*ms as i128) * 1_000_000;
+    whole(&h, 3600, "getHours is the total whole hours");
+    whole(&m, 60, "getMinutes is the total whole minutes");
+    match &sec {
+        CelValue::Int(q) => assert!(*q == ws, "getSeconds is the total whole seconds"),
+        _ => assert!(false, "duration accessor returns an int"),
+    }
+    match &ms {
+        CelValue::Int(ms) => {
+            let rem = sub - *ms * 1_000_000;
+            assert!(*ms > -1000 && *ms < 1000, "sub-second milliseconds are below one second");
             if sub >= 0 {
                 assert!(rem >= 0 && rem < 1_000_000, "getMilliseconds is the sub-second millisecond part");
             } else {
@@ -229,27 +303,108 @@ pub fn dur_accessors() {
     core::mem::forget((h, m, sec, ms));
 }
 
-/// ordering of durations / timestamps is chronological (through the public lt)
+/// ordering of durations is the order of their lengths
 pub fn dur_order() {
     let (s1, n1) = sym_dur();
     let (s2, n2) = sym_dur();
     let a = CelValue::Duration(Duration::new(s1, n1).unwrap());
     let b = CelValue::Duration(Duration::new(s2, n2).unwrap());
     let r = a.lt(b);
-    let want = dur_total(s1, n1) < dur_total(s2, n2);
+    // s seconds + n nanoseconds with 0 <= n < 1e9: lexicographic order is the order of lengths
+    let want = (s1, n1) < (s2, n2);
     witness!(want, "earlier");
     assert!(matches!(r, CelValue::Bool(x) if x == want), "duration order is the order of the lengths");
     core::mem::forget(r);
 }
 
-pub fn ts_order(with_nanos: bool) {
-    let (s1, n1) = sym_ts(with_nanos);
-    let (s2, n2) = sym_ts(with_nanos);
-    let a = CelValue::TimeStamp(DateTime::from_timestamp(s1, n1).unwrap());
-    let b = CelValue::TimeStamp(DateTime::from_timestamp(s2, n2).unwrap());
-    let r = a.lt(b);
-    let want = (s1, n1) < (s2, n2);
-    witness!(want, "earlier");
-    assert!(matches!(r, CelValue::Bool(x) if x == want), "timestamp order is chronological");
-    core::mem::forget(r);
+/// chronological order of timestamps from two windows (all six relations)
+pub fn ts_order(base1: i64, base2: i64) {
+    let (s1, n1) = win_ts(base1);
+    let (s2, n2) = win_ts(base2);
+    let mk = |s, n| CelValue::TimeStamp(DateTime::from_timestamp(s, n).unwrap());
+    let lt = mk(s1, n1).lt(mk(s2, n2));
+    let le = mk(s1, n1).le(mk(s2, n2));
+    let gt = mk(s1, n1).gt(mk(s2, n2));
+    let ge = mk(s1, n1).ge(mk(s2, n2));
+    let (x, y) = (mk(s1, n1), mk(s2, n2));
+    let eq = rscel::CelValueDyn::eq(&x, &y);
+    let o = (s1, n1).cmp(&(s2, n2));
+    use core::cmp::Ordering::*;
+    witness!(o == Less, "earlier");
+    witness!(o == Greater, "later");
+    assert!(matches!(lt, CelValue::Bool(b) if b == (o == Less)), "timestamp < is chronological");
+    assert!(matches!(le, CelValue::Bool(b) if b == (o != Greater)), "timestamp <= is chronological");
+    assert!(matches!(gt, CelValue::Bool(b) if b == (o == Greater)), "timestamp > is chronological");
+    assert!(matches!(ge, CelValue::Bool(b) if b == (o != Less)), "timestamp >= is chronological");
+    assert!(matches!(eq, CelValue::Bool(b) if b == (o == Equal)), "timestamp == is identity of instants");
+    core::mem::forget((lt, le, gt, ge, eq, x, y));
+}
+
+// ---------------------------------------------------------------------------------------
+// Calendar accessors in UTC (typed overloads through the hook), against an independent
+// civil-from-days computation (Howard Hinnant's algorithm, written here from its published
+// description - not chrono's code).
+
+fn floor_div(a: i64, b: i64) -> i64 {
+    let q = a / b;
+    if (a % b != 0) && ((a < 0) != (b < 0)) {
+        q - 1
+    } else {
+        q
+    }
+}
+
+fn days_from_civil(y: i64, m: i64, d: i64) -> i64 {
+    let y = if m <= 2 { y - 1 } else { y };
+    let era = floor_div(y, 400);
+    let yoe = y - era * 400;
+    let mp = if m > 2 { m - 3 } else { m + 9 };
+    let doy = (153 * mp + 2) / 5 + d - 1;
+    let doe = yoe * 365 + yoe / 4 - yoe / 100 + doy;
+    era * 146097 + doe - 719468
+}
+
+/// (year, month 1..12, day 1..31) of the day number `z` (days since 1970-01-01)
+fn civil_from_days(z: i64) -> (i64, i64, i64) {
+    let z = z + 719468;
+    let era = floor_div(z, 146097);
+    let doe = z - era * 146097;
+    let yoe = (doe - doe / 1460 + doe / 36524 - doe / 146096) / 365;
+    let y = yoe + era * 400;
+    let doy = doe - (365 * yoe + yoe / 4 - yoe / 100);
+    let mp = (5 * doy + 2) / 153;
+    let d = doy - (153 * mp + 2) / 5 + 1;
+    let m = if mp < 10 { mp + 3 } else { mp - 9 };
+    (if m <= 2 { y + 1 } else { y }, m, d)
+}
+
+/// every UTC accessor of an instant in the window `base +- WIN`
+pub fn calendar_utc(base: i64) {
+    let (s, n) = win_ts(base);
+    let t = DateTime::from_timestamp(s, n).unwrap();
+    let days = floor_div(s, 86400);
+    let sod = s - days * 86400; // second of day, 0..86400
+    let (y, m, d) = civil_from_days(days);
+    let doy0 = days - days_from_civil(y, 1, 1); // zero-based day of year
+    let dow = {
+        let w = (days + 4) % 7; // 1970-01-01 was a Thursday (4 with Sunday = 0)
+        if w < 0 {
+            w + 7
+        } else {
+            w
+        }
+    };
+    use vf::inner as i;
+    witness!(m == 2 && d == 29, "leap day");
+    witness!(sod >= 86399, "last second of a day");
+    assert!(i::get_full_year::utc(t) == y, "getFullYear is the civil year in UTC");
+    assert!(i::get_month::utc(t) == m - 1, "getMonth is zero-based");
+    assert!(i::get_date::utc(t) == d, "getDate is the one-based day of the month");
+    assert!(i::get_day_of_month::utc(t) == d - 1, "getDayOfMonth is zero-based");
+    assert!(i::get_day_of_year::utc(t) == doy0, "getDayOfYear is zero-based");
+    assert!(i::get_day_of_week::utc(t) == dow, "getDayOfWeek is zero-based with Sunday = 0");
+    assert!(i::get_hours::utc(t) == sod / 3600, "getHours is the hour of the day in UTC");
+    assert!(i::get_minutes::utc(t) == (sod % 3600) / 60, "getMinutes is the minute of the hour");
+    assert!(i::get_seconds::utc(t) == sod % 60, "getSeconds is the second of the minute");
+    assert!(i::get_milliseconds::utc(t) == (n / 1_000_000) as i64, "getMilliseconds is the millisecond of the second");
 }
